@@ -134,23 +134,17 @@ Definition fq_validate (r : fq) : fq * vres :=
               | None => (r, VPanic 14)
               end
             else
-              if (p1 r + 1 <? pqual r) || (psep r <? pseq r) then (r, VPanic 15)
-              else
-                let qual_len := p1 r + 1 - pqual r in
-                let seq_len := psep r - pseq r in
-                if seq_len =? qual_len then (r, VOk)
-                else
-                  match bp_seq (qbuf r) (pseq r) (psep r), bp_qual (qbuf r) (pqual r) (p1 r) with
-                  | Some s, Some q =>
-                      if length s =? length q then (r, VOk)
-                      else
-                        let r := qset_st r QFinished in
-                        match fq_error_pos r 0 true with
-                        | Some (l, id) => (r, VErr (FqUnequalLengths (length s) (length q) l id))
-                        | None => (r, VPanic 16)
-                        end
-                  | _, _ => (r, VPanic 17)
-                  end
+              match bp_seq (qbuf r) (pseq r) (psep r), bp_qual (qbuf r) (pqual r) (p1 r) with
+              | Some s, Some q =>
+                  if length s =? length q then (r, VOk)
+                  else
+                    let r := qset_st r QFinished in
+                    match fq_error_pos r 0 true with
+                    | Some (l, id) => (r, VErr (FqUnequalLengths (length s) (length q) l id))
+                    | None => (r, VPanic 16)
+                    end
+              | _, _ => (r, VPanic 17)
+              end
         end
   end.
 
